@@ -36,7 +36,8 @@ ROUTER_FUNCS = ('find', '_compile_and_find', '_compile')
 WIDE_FILES = ('falcon/app.py', 'falcon/request.py', 'falcon/response.py', 'falcon/routing/compiled.py',
               'falcon/media/handlers.py', 'falcon/util/mediatypes.py', 'falcon/app_helpers.py', 'falcon/hooks.py',
               'falcon/media/json.py', 'falcon/request_helpers.py', 'falcon/util/misc.py', 'falcon/stream.py',
-              'falcon/http_error.py', 'falcon/routing/converters.py', 'falcon/routing/util.py', 'falcon/responders.py')
+              'falcon/http_error.py', 'falcon/routing/converters.py', 'falcon/routing/util.py', 'falcon/responders.py',
+              'falcon/util/uri.py', 'falcon/middleware.py', 'falcon/media/urlencoded.py')
 
 
 def narrow(code):
@@ -188,7 +189,9 @@ def gen_requests(rng, n, with_flaky=False):
     for i in range(n):
         tok = 'tok%d-%04x' % (i, rng.randrange(1 << 16))
         kind = rng.choice(kinds)
-        q = rng.choice(['q=%s&l=a%d&l=b%d' % (tok, i, i)] * 2 + ['', 'q=same&l=x'])
+        esc = ''.join('%%%02X' % b for b in ('é' + tok).encode())          # >= 8 escapes: decode()'s long path
+        q = rng.choice(['q=%s&l=a%d&l=b%d' % (tok, i, i), 'q=%s&l=a%d&l=b%d' % (esc, i, i), 'q=%s&l=%s' % (esc, esc),
+                        '', 'q=same&l=x'])
         headers = [('X-Tok', tok), ('Accept', rng.choice(['application/json', '*/*', 'text/plain;q=0.5, application/json']))]
         body = b''
         method = 'GET'
